@@ -14,7 +14,7 @@ import rltables
 
 META = {
     "level": "other",
-    "technique": "static analysis: sibling agreement of serialize/load/size_in_elements call sequences and formulas extracted from MIR (rustc_private driver)",
+    "technique": "static analysis: sibling agreement of serialize/load/size_in_elements call sequences and formulas extracted from MIR, table agreement of unserialized derived fields across builder / loader / readers, loader-validation vs builder-count shape (rustc_private driver; bodies normalised by helper inlining and combinator expansion)",
     "explanation": "For each of the 14 Serialize impls the ordered, typed sequence of nested serialize calls (header then body, success path, "
                    "loop/conditional structure kept) is extracted from MIR and compared with the ordered sequence of nested load calls and with "
                    "the multiset summed by size_in_elements; the loaded payload of the k-th `?` is traced into the k-th written field of the "
